@@ -417,6 +417,110 @@ def check_moved_segment(core, v, level, rec, rng):
         rec.violation('raised:%s' % type(e).__name__, case, {'exc': repr(e)[:200]})
 
 
+def check_invalid_positions(core, v, seg, level, rec, rng):
+    """positional paths naming a place that does not exist (position 0, one past the last component, a sub-component of a
+    primitive): reading raises and creates nothing, assigning is refused and creates nothing"""
+    from hl7apy.exceptions import HL7apyException
+    # (fields of type `varies` hold components by number, without a last one: not judged here)
+    rows = [r for r in gen.usable_rows(v, seg) if r.datatype != 'varies']
+    if not rows:
+        return
+    r = rng.choice(rows)
+    comps = [c for c in tables.components(v, r.datatype)] if r.kind == 'sequence' else []
+    ncomp = len(comps) if comps else 1
+    base = r.name.lower()
+    bad = ['%s_0' % base, '%s_%d' % (base, ncomp + 1), '%s_1_0' % base, '%s_0_1' % base, '%s_0_0' % base]
+    if not comps:
+        bad += ['%s_1_1' % base, '%s_1_2' % base]
+    else:
+        k = rng.randrange(ncomp)
+        sub = tables.components(v, comps[k].datatype) if comps[k].kind == 'sequence' else []
+        bad += ['%s_%d_0' % (base, k + 1), '%s_%d_%d' % (base, k + 1, (len(sub) or 1) + 1)]
+    for path in bad:
+        for op in ('read', 'write'):
+            root = core.Segment(seg, version=v, validation_level=level)
+            root2 = getattr(root, base)
+            before = state(root)
+            case = {'kind': 'invalid-position', 'version': v, 'segment': seg, 'level': level, 'path': path, 'op': op}
+            rec.evaluation(('invalid-position', v, seg, level, path, op))
+            try:
+                if op == 'read':
+                    getattr(root2, path)
+                else:
+                    setattr(root2, path, gen.witness(v, r.datatype) if r.kind == 'leaf' else 'x')
+                raised = None
+            except (HL7apyException, AttributeError) as e:
+                raised = type(e).__name__
+            except Exception as e:
+                rec.violation('invalid-position-raised:%s' % type(e).__name__, case, {'exc': repr(e)[:160]})
+                continue
+            rec.count('invalid_position_probes')
+            if raised is None:
+                rec.violation('position-that-does-not-exist-accepted', case, {'encoding_after': root.to_er7()})
+            elif state(root) != before:
+                rec.violation('refused-path-changed-the-tree', case, {'encoding_after': root.to_er7(), 'raised': raised})
+
+
+def longname_pairs(v):
+    """(field row, other datatype, long name, component name in the field's datatype, component name in the other datatype):
+    the same long name at another position of another composite datatype"""
+    by = {}
+    for d in tables.complex_datatypes(v):
+        for c in tables.components(v, d):
+            if c.ok and c.card[1] != 0 and c.long_name:
+                by.setdefault(c.long_name, []).append((d, c))
+    out = []
+    for ln, places in sorted(by.items()):
+        for d1, c1 in places:
+            for d2, c2 in places:
+                if d1 != d2 and c1.num != c2.num:
+                    out.append((d1, d2, ln, c1, c2))
+    return out
+
+
+def check_longname_after_override(core, v, rec, rng):
+    """a field is read through the long name of a component, its datatype is then overridden (TOLERANT, still empty) with one
+    that has the same long name at another place, and a value is written through that long name: exactly the component the
+    NEW datatype gives that name is created"""
+    pairs = longname_pairs(v)
+    if not pairs:
+        rec.count('versions_without_shared_long_names')
+        return
+    fields = {}
+    for sname, rows in sorted(tables.segments(v).items()):
+        for r in rows or []:
+            if r.ok and r.card[1] != 0 and r.kind == 'sequence':
+                fields.setdefault(r.datatype, r)
+    usable = [p for p in pairs if p[0] in fields]
+    for d1, d2, ln, c1, c2 in rng.sample(usable, min(6, len(usable))):
+        r = fields[d1]
+        wit = gen.witness(v, c2.datatype) if c2.kind == 'leaf' else 'x'
+        for read_first in (True, False):
+            case = {'kind': 'longname-after-override', 'version': v, 'field': r.name, 'override': d2, 'long_name': ln,
+                    'read_first': read_first}
+            rec.evaluation(('longname-after-override', v, r.name, d2, ln, read_first))
+            try:
+                f = core.Field(r.name, version=v, validation_level=2)
+                if read_first:
+                    getattr(f, ln.lower())
+                    if len(f.children):
+                        rec.violation('read-created-children', case, {'children': [c.name for c in f.children.list]})
+                        continue
+                f.datatype = d2
+                getattr(f, ln.lower()).value = wit
+                names = [c.name for c in f.children.list]
+                rec.count('longname_after_override_checks')
+                if names != [c2.name]:
+                    rec.violation('write-through-long-name-after-override-created-other-children', case,
+                                  {'children': names, 'expected': [c2.name]})
+            except Exception as e:
+                if read_first:
+                    rec.violation('write-through-long-name-after-override-raised:%s' % type(e).__name__, case,
+                                  {'exc': repr(e)[:160]})
+                else:
+                    rec.count('longname_after_override_not_applicable')     # refused without the read too: not judged
+
+
 def message_hosts(v):
     """segment -> (structure, group names...) for segments reachable at top level or one/two groups deep,
     through non-ambiguous names"""
@@ -484,6 +588,9 @@ def run_shard(spec, rec):
                     check_z_in_message(core, v, level, rec, rng)
                     check_moved_segment(core, v, level, rec, rng)
         if spec['root'] == 'segment':
+            for i in range(max(6, spec['n'] // 12)):
+                check_invalid_positions(core, v, rng.choice(segs), 1 + i % 2, rec, rng)
+            check_longname_after_override(core, v, rec, rng)
             for seg in c02.open_ended_segments(v):
                 for level in (1, 2):
                     for _ in range(3):
@@ -509,6 +616,14 @@ def replay(case, rec):
         for k in range(20):
             check_open_segment(core, v, case['segment'], case['level'], rec, gen.rng_for(k, 'replay'))
         return
+    if case.get('kind') == 'invalid-position':
+        for k in range(60):
+            check_invalid_positions(core, v, case['segment'], case['level'], rec, gen.rng_for(k, 'replay'))
+        return
+    if case.get('kind') == 'longname-after-override':
+        for k in range(20):
+            check_longname_after_override(core, v, rec, gen.rng_for(k, 'replay'))
+        return
     rows = {r.name: r for r in tables.segments(v)[case['segment']]}
     chain = []
     f = rows[case['chain'][0]]
@@ -525,6 +640,9 @@ def replay(case, rec):
 
 def floors(tier, m):
     out = []
+    if m['counters'].get('invalid_position_probes', 0) < 1000 or m['counters'].get('longname_after_override_checks', 0) < 50:
+        out.append('paths that do not exist / long names after an override barely probed: %s, %s' % (
+            m['counters'].get('invalid_position_probes'), m['counters'].get('longname_after_override_checks')))
     c = m['counters']
     if c.get('read_purity_comparisons', 0) < 3000:
         out.append('fewer than 3000 read chains')
